@@ -454,4 +454,116 @@ def flatten : Option Act → Forest → List Ev
 
 end Fwd
 
+/-! ## the stream machine with `io.capture` as a mode of every execution (`Mode`)
+
+`PythonAction.execute` has two swap disciplines, chosen by `capture_io = self.task.io.capture`:
+
+* capture on  — `old = sys.stdout; sys.stdout = Writer(StringIO(), out)` … `finally: sys.stdout = old; self.out = getvalue()`
+  (the steps `save; set; …; restore; read` of `Fwd`);
+* capture off — `if out: old = sys.stdout; sys.stdout = out` … `finally: if out: sys.stdout = old`
+  (`swapNC; …; restoreNC`): nothing is swapped at all when verbosity hands no live stream over, no buffer exists
+  and `self.out` stays `None`.
+
+Same cell, same `Fwd.Stream` objects, same state; executions of both modes nest in one another freely. -/
+namespace Mode
+
+inductive Ev
+  | getlive (a : Act) (on : Bool)
+  | save (a : Act) | set (a : Act) | restore (a : Act) | read (a : Act)     -- capture on
+  | swapNC (a : Act) | restoreNC (a : Act)                                -- capture off
+  | write (a : Act) (n : Nat)
+deriving DecidableEq, Repr
+
+/-- `if out:` — a live stream was handed over -/
+def given : Fwd.Stream → Bool
+  | .null => false
+  | _ => true
+
+def step (s : Fwd.St) : Ev → Fwd.St
+  | .getlive a on => { s with live := upd s.live a (if on then s.cell else .null) }
+  | .save a => { s with saved := upd s.saved a (some s.cell) }
+  | .set a => { s with cell := .writer a (s.live a) }
+  | .write a n => Fwd.emit (a, n) s.cell s
+  | .restore a => Fwd.restoreTo s (s.saved a)
+  | .read a => { s with out := upd s.out a (some (s.buf a)) }
+  | .swapNC a => if given (s.live a) then { s with saved := upd s.saved a (some s.cell), cell := s.live a } else s
+  | .restoreNC a => if given (s.live a) then Fwd.restoreTo s (s.saved a) else s
+
+def run (s : Fwd.St) (evs : List Ev) : Fwd.St := evs.foldl step s
+
+def writesOf (a : Act) : List Ev → List Tok
+  | [] => []
+  | .write b n :: rest => if b = a then (a, n) :: writesOf a rest else writesOf a rest
+  | _ :: rest => writesOf a rest
+
+/-- the executions (of either mode) that start in a list: each starts with its `getlive` -/
+def started : List Ev → List Act
+  | [] => []
+  | .getlive a _ :: rest => a :: started rest
+  | _ :: rest => started rest
+
+/-- the capturing executions in a list (`action.out` changes only at a `read` step: an execution with capture off
+    never sets it) -/
+def reads : List Ev → List Act
+  | [] => []
+  | .read a :: rest => a :: reads rest
+  | _ :: rest => reads rest
+
+/-- scenario forests: every execution has its verbosity flag `on` and its capture mode `cap` -/
+inductive Forest
+  | nil
+  | write (n : Nat) (rest : Forest)
+  | exec (b : Act) (on : Bool) (cap : Bool) (body : Forest) (rest : Forest)
+  | kw (b : Act) (rest : Forest)      -- `_prepare_kwargs` of `b` raises: no step in either mode
+deriving Repr
+
+/-- the steps before / after the callable of an execution -/
+def pre (b : Act) (on cap : Bool) : List Ev :=
+  if cap then [.getlive b on, .save b, .set b] else [.getlive b on, .swapNC b]
+def post (b : Act) (cap : Bool) : List Ev :=
+  if cap then [.restore b, .read b] else [.restoreNC b]
+
+def flatten : Option Act → Forest → List Ev
+  | _, .nil => []
+  | some a, .write n rest => .write a n :: flatten (some a) rest
+  | none, .write _ rest => flatten none rest
+  | o, .exec b on cap body rest => pre b on cap ++ flatten (some b) body ++ post b cap ++ flatten o rest
+  | o, .kw _ rest => flatten o rest
+
+/-- a list of steps of capture-off executions only (any order: threads may interleave them at will) -/
+def ncOnly : List Ev → Bool
+  | [] => true
+  | .getlive _ _ :: rest | .swapNC _ :: rest | .restoreNC _ :: rest | .write _ _ :: rest => ncOnly rest
+  | _ => false
+
+/-- every write of a list, in order -/
+def allWrites : List Ev → List Tok
+  | [] => []
+  | .write a n :: rest => (a, n) :: allWrites rest
+  | _ :: rest => allWrites rest
+
+/-- one execution of `a` with capture off whose callable runs the scenario `body`; `try/finally`: the same steps
+    whatever the callable returns or raises (Exception or BaseException) -/
+def execNC (a : Act) (on : Bool) (body : Forest) : List Ev :=
+  pre a on false ++ flatten (some a) body ++ post a false
+
+/-- the `Fwd` machine is the all-capture fragment -/
+def ofFwd : Fwd.Ev → Ev
+  | .getlive a on => .getlive a on | .save a => .save a | .set a => .set a
+  | .write a n => .write a n | .restore a => .restore a | .read a => .read a
+
+def ofFwdForest : Fwd.Forest → Forest
+  | .nil => .nil
+  | .write n rest => .write n (ofFwdForest rest)
+  | .exec b on body rest => .exec b on true (ofFwdForest body) (ofFwdForest rest)
+  | .kw b rest => .kw b (ofFwdForest rest)
+
+end Mode
+
+/-- a stream operation every stream the callable may see supports in the same way (the `Writer` interface
+    without `fileno`) -/
+def StreamOp.common : StreamOp → Bool
+  | .write | .print | .flush | .isatty => true
+  | _ => false
+
 end DoitModel.Act
